@@ -3461,6 +3461,14 @@ impl KotoVm {
         let representation = format_options.and_then(|options| options.representation);
         let rendered = match value {
             KValue::Number(n) => match (precision, representation) {
+                // Floats keep their fractional part in the debug and exponential representations
+                (_, Some(StringFormatRepresentation::Debug)) if n.is_f64() => n.to_string(),
+                (_, Some(StringFormatRepresentation::ExpLower)) if n.is_f64() => {
+                    format!("{:e}", f64::from(n))
+                }
+                (_, Some(StringFormatRepresentation::ExpUpper)) if n.is_f64() => {
+                    format!("{:E}", f64::from(n))
+                }
                 (_, Some(representation)) => {
                     let n = i64::from(n);
                     match representation {
